@@ -595,46 +595,278 @@ func ruleBC6(c *Ctx) {
 		}
 	}
 	if gs := c.FuncDecl("vm", "stack.growStack"); gs != nil {
-		s := c.sxN(gs, gs.Body)
+		// by data flow, not by shape: (a) a slice is made whose length is sp (or len(stack)) plus a positive constant,
+		// (b) the WHOLE old stack (the receiver's stack as it was on entry, unsliced) is copied into it, (c) it is installed
 		grow := c.Obj("vm", "stackGrow")
-		pos := false
-		if cst, ok := grow.(*types.Const); ok && constant.Sign(cst.Val()) > 0 {
-			pos = true
+		defs := c.localDefs(gs.Body)
+		resolve := func(e ast.Expr) ast.Expr {
+			e = unparen(e)
+			for d := 0; d < 4; d++ {
+				id, ok := e.(*ast.Ident)
+				if !ok {
+					break
+				}
+				def, ok := defs[c.objOf(id)]
+				if !ok {
+					break
+				}
+				e = unparen(def)
+			}
+			return e
 		}
-		okMake := strings.Contains(s, "Fun:make") && strings.Contains(s, "(BinaryExpr (SelectorExpr $r Sel:sp) Op:+ Y:stackGrow)") && pos
-		cp := c.callsTo(gs.Body, "builtin.copy")
-		okCopy := len(cp) == 1 && c.sxN(gs, cp[0].Args[1]) == "(SelectorExpr $r Sel:stack)" && c.hasNode(gs, gs.Body, "(ExprStmt (CallExpr Fun:copy Args:[$0 (SelectorExpr $r Sel:stack)]))", false)
-		okAssign := strings.Contains(s, "(AssignStmt Lhs:[(SelectorExpr $r Sel:stack)] Tok:= Rhs:[$0])")
+		isRecvStack := func(e ast.Expr) bool {
+			se, ok := unparen(e).(*ast.SelectorExpr)
+			return ok && c.objOf(se) == types.Object(stF)
+		}
+		// first statement that assigns r.stack
+		var install *ast.AssignStmt
+		var installRhs ast.Expr
+		inspectNoLit(gs.Body, func(x ast.Node) bool {
+			if as, ok := x.(*ast.AssignStmt); ok && install == nil {
+				for i, l := range as.Lhs {
+					if isRecvStack(l) && i < len(as.Rhs) {
+						install, installRhs = as, as.Rhs[i]
+					}
+				}
+			}
+			return true
+		})
+		isGrownMake := func(e ast.Expr) bool {
+			ce, ok := resolve(e).(*ast.CallExpr)
+			if !ok || c.calleeName(ce) != "builtin.make" || len(ce.Args) < 2 {
+				return false
+			}
+			be, ok := unparen(ce.Args[1]).(*ast.BinaryExpr)
+			if !ok || be.Op != token.ADD {
+				return false
+			}
+			for _, pair := range [][2]ast.Expr{{be.X, be.Y}, {be.Y, be.X}} {
+				base, inc := unparen(pair[0]), pair[1]
+				baseOK := false
+				if se, ok := base.(*ast.SelectorExpr); ok && c.objOf(se) == types.Object(spF) {
+					baseOK = true
+				}
+				if lc, ok := base.(*ast.CallExpr); ok && c.calleeName(lc) == "builtin.len" && len(lc.Args) == 1 && isRecvStack(lc.Args[0]) {
+					baseOK = true
+				}
+				if v := c.constOf(inc); baseOK && v != nil && constant.Sign(v) > 0 {
+					return true
+				}
+			}
+			return false
+		}
+		okMake := install != nil && isGrownMake(installRhs)
+		if cst, ok := grow.(*types.Const); !ok || constant.Sign(cst.Val()) <= 0 {
+			okMake = false
+		}
+		okCopy := false
+		for _, cp := range c.callsTo(gs.Body, "builtin.copy") {
+			if len(cp.Args) != 2 || install == nil {
+				continue
+			}
+			dst, src := cp.Args[0], cp.Args[1]
+			// destination: the new slice (the local that is installed, or r.stack after the installation)
+			dstOK := (isRecvStack(dst) && cp.Pos() > install.End()) || (c.objOf(dst) != nil && c.objOf(dst) == c.objOf(installRhs)) || isGrownMake(dst)
+			// source: the old stack, unsliced — r.stack read before the installation, or a local bound to it before
+			srcOK := false
+			if isRecvStack(src) && cp.End() < install.Pos() {
+				srcOK = true
+			}
+			if id, ok := unparen(src).(*ast.Ident); ok {
+				if def, ok := defs[c.objOf(id)]; ok && isRecvStack(def) && def.End() < install.Pos() {
+					srcOK = true
+				}
+			}
+			if dstOK && srcOK {
+				okCopy = true
+			}
+		}
 		c.R.Check(okMake, "vm.stack.growStack", "new slice longer by a positive constant", gs.Pos(), "make(sp + stackGrow), stackGrow > 0", "growth does not enlarge the stack by a positive constant")
-		c.R.Check(okCopy, "vm.stack.growStack", "whole old stack copied", gs.Pos(), "copy(n, s.stack)", "growth does not copy the complete old stack: operands below the top are lost or the top becomes nil")
-		c.R.Check(okAssign, "vm.stack.growStack", "new slice installed", gs.Pos(), "s.stack = n", "the grown slice is not installed")
+		c.R.Check(okCopy, "vm.stack.growStack", "whole old stack copied", gs.Pos(), "copy(new, old stack), unsliced", "growth does not copy the complete old stack: operands below the top are lost or the top becomes nil")
+		c.R.Check(install != nil && okMake, "vm.stack.growStack", "new slice installed", gs.Pos(), "s.stack = the grown slice", "the grown slice is not installed")
 	} else {
 		c.R.Anchor("vm.stack.growStack")
 	}
+	// Push / Pop by symbolic execution of the (straight-line, guarded) bodies: sp is tracked as sp0 + k
+	type spState struct {
+		k       int
+		guards  []string // conditions known to hold (as source text over sp0), in order
+		grew    string   // condition under which growStack was called before the store
+		stores  []string // "stack[sp0+k] = <expr>"
+		result  string
+		unknown string
+	}
+	var evalStack func(fd *ast.FuncDecl) spState
+	evalStack = func(fd *ast.FuncDecl) spState {
+		st := spState{}
+		locals := map[types.Object]string{}
+		lin := func(k int) string {
+			switch {
+			case k == 0:
+				return "sp0"
+			case k > 0:
+				return fmt.Sprintf("sp0+%d", k)
+			}
+			return fmt.Sprintf("sp0%d", k)
+		}
+		var ev func(e ast.Expr) string
+		ev = func(e ast.Expr) string {
+			e = unparen(e)
+			switch x := e.(type) {
+			case *ast.SelectorExpr:
+				if c.objOf(x) == types.Object(spF) {
+					return lin(st.k)
+				}
+				if c.objOf(x) == types.Object(stF) {
+					return "stack"
+				}
+			case *ast.Ident:
+				if v, ok := locals[c.objOf(x)]; ok {
+					return v
+				}
+				if v := c.constOf(x); v != nil {
+					return v.String()
+				}
+				return "param:" + x.Name
+			case *ast.BasicLit:
+				return x.Value
+			case *ast.BinaryExpr:
+				l, r := ev(x.X), ev(x.Y)
+				if strings.HasPrefix(l, "sp0") && (x.Op == token.ADD || x.Op == token.SUB) {
+					if v := c.constOf(x.Y); v != nil {
+						if n, ok := constant.Int64Val(constant.ToInt(v)); ok {
+							base := 0
+							fmt.Sscanf(strings.TrimPrefix(l, "sp0"), "%d", &base)
+							if x.Op == token.SUB {
+								n = -n
+							}
+							return lin(base + int(n))
+						}
+					}
+				}
+				return "(" + l + x.Op.String() + r + ")"
+			case *ast.UnaryExpr:
+				return x.Op.String() + ev(x.X)
+			case *ast.IndexExpr:
+				return ev(x.X) + "[" + ev(x.Index) + "]"
+			case *ast.CallExpr:
+				switch c.calleeName(x) {
+				case "builtin.len":
+					return "len(" + ev(x.Args[0]) + ")"
+				case "vm.stack.Empty":
+					return "(" + lin(st.k) + "==0)"
+				}
+				return "call:" + c.calleeName(x)
+			}
+			return "?" + src(e)
+		}
+		for _, s := range fd.Body.List {
+			switch x := s.(type) {
+			case *ast.ExprStmt:
+				ce, ok := x.X.(*ast.CallExpr)
+				if ok && c.calleeName(ce) == "util.Assert" && len(ce.Args) > 0 {
+					st.guards = append(st.guards, ev(ce.Args[0]))
+					continue
+				}
+				st.unknown = src(s)
+			case *ast.IfStmt:
+				if x.Init != nil || x.Else != nil || len(x.Body.List) != 1 {
+					st.unknown = src(s)
+					continue
+				}
+				if es, ok := x.Body.List[0].(*ast.ExprStmt); ok {
+					if ce, ok := es.X.(*ast.CallExpr); ok {
+						if c.calleeName(ce) == "vm.stack.growStack" {
+							st.grew = ev(x.Cond)
+							continue
+						}
+						if c.noReturn(ce) {
+							st.guards = append(st.guards, "!"+ev(x.Cond))
+							continue
+						}
+					}
+				}
+				st.unknown = src(s)
+			case *ast.IncDecStmt:
+				if se, ok := unparen(x.X).(*ast.SelectorExpr); ok && c.objOf(se) == types.Object(spF) {
+					if x.Tok == token.INC {
+						st.k++
+					} else {
+						st.k--
+					}
+					continue
+				}
+				st.unknown = src(s)
+			case *ast.AssignStmt:
+				if len(x.Lhs) != 1 || len(x.Rhs) != 1 {
+					st.unknown = src(s)
+					continue
+				}
+				l := unparen(x.Lhs[0])
+				switch lv := l.(type) {
+				case *ast.Ident:
+					locals[c.objOf(lv)] = ev(x.Rhs[0])
+				case *ast.IndexExpr:
+					st.stores = append(st.stores, ev(lv)+" = "+ev(x.Rhs[0])+" |grew:"+st.grew+"|guards:"+strings.Join(st.guards, "&"))
+				case *ast.SelectorExpr:
+					if c.objOf(lv) == types.Object(spF) {
+						v := ev(x.Rhs[0])
+						if x.Tok == token.ADD_ASSIGN || x.Tok == token.SUB_ASSIGN {
+							if cv := c.constOf(x.Rhs[0]); cv != nil {
+								n, _ := constant.Int64Val(constant.ToInt(cv))
+								if x.Tok == token.SUB_ASSIGN {
+									n = -n
+								}
+								st.k += int(n)
+								continue
+							}
+						}
+						if strings.HasPrefix(v, "sp0") {
+							base := 0
+							fmt.Sscanf(strings.TrimPrefix(v, "sp0"), "%d", &base)
+							st.k = base
+							continue
+						}
+					}
+					st.unknown = src(s)
+				default:
+					st.unknown = src(s)
+				}
+			case *ast.ReturnStmt:
+				if len(x.Results) == 1 {
+					st.result = ev(x.Results[0]) + " |guards:" + strings.Join(st.guards, "&")
+				}
+			default:
+				st.unknown = src(s)
+			}
+		}
+		return st
+	}
+	nonEmpty := func(guards string) bool {
+		for _, g := range strings.Split(guards, "&") {
+			switch strings.ReplaceAll(g, " ", "") {
+			case "!(sp0==0)", "(sp0>0)", "(sp0!=0)", "(sp0>=1)", "!(sp0<=0)", "!(sp0<1)", "!(0==sp0)", "(0<sp0)":
+				return true
+			}
+		}
+		return false
+	}
 	if pu := c.FuncDecl("vm", "stack.Push"); pu != nil {
-		s := c.sxN(pu, pu.Body.List)
-		okP := s == "[(IfStmt Cond:(BinaryExpr (SelectorExpr $r Sel:sp) Op:== Y:(CallExpr Fun:len Args:[(SelectorExpr $r Sel:stack)])) Body:(BlockStmt [(ExprStmt (CallExpr Fun:(SelectorExpr $r Sel:growStack)))])) (AssignStmt Lhs:[(IndexExpr (SelectorExpr $r Sel:stack) Index:(SelectorExpr $r Sel:sp))] Tok:= Rhs:[$p0]) (IncDecStmt (SelectorExpr $r Sel:sp) Tok:++)]"
-		c.R.Check(okP, "vm.stack.Push", "grow when full, store at sp, sp++", pu.Pos(), "growth precedes every store", "Push is not `if sp == len { grow }; stack[sp] = v; sp++`")
+		st := evalStack(pu)
+		okP := st.unknown == "" && st.k == 1 && len(st.stores) == 1 && strings.HasPrefix(st.stores[0], "stack[sp0] = param:")
+		if okP {
+			g := strings.ReplaceAll(strings.SplitN(strings.SplitN(st.stores[0], "|grew:", 2)[1], "|guards:", 2)[0], " ", "")
+			okP = g == "(sp0==len(stack))" || g == "(sp0>=len(stack))" || g == "(len(stack)==sp0)" || g == "(len(stack)<=sp0)"
+		}
+		c.R.Check(okP, "vm.stack.Push", "grow when full, store at sp, sp++", pu.Pos(), "growth precedes every store", "Push is not `if sp == len { grow }; stack[sp] = v; sp++` ("+st.unknown+")")
 	} else {
 		c.R.Anchor("vm.stack.Push")
 	}
 	if po := c.FuncDecl("vm", "stack.Pop"); po != nil {
-		g := c.buildCFG(po.Body)
-		as := c.asserted(po.Body)
-		var read *ast.IndexExpr
-		inspectNoLit(po.Body, func(x ast.Node) bool {
-			if ix, ok := x.(*ast.IndexExpr); ok && c.sxN(po, ix) == "(IndexExpr (SelectorExpr $r Sel:stack) Index:(BinaryExpr (SelectorExpr $r Sel:sp) Op:- Y:1))" {
-				read = ix
-			}
-			return true
-		})
-		okA := false
-		if len(as) == 1 && read != nil && g.dominates(as[0].node, read) {
-			cs := c.sxN(po, as[0].cond)
-			okA = cs == "(UnaryExpr Op:! (CallExpr Fun:(SelectorExpr $r Sel:Empty)))" || cs == "(BinaryExpr (SelectorExpr $r Sel:sp) Op:> Y:0)" || cs == "(BinaryExpr (SelectorExpr $r Sel:sp) Op:!= Y:0)" || cs == "(BinaryExpr (SelectorExpr $r Sel:sp) Op:>= Y:1)"
-		}
-		dec := strings.Contains(c.sxN(po, po.Body), "(IncDecStmt (SelectorExpr $r Sel:sp) Tok:--)")
-		c.R.Check(okA && dec, "vm.stack.Pop", "assert non-empty, read sp-1, sp--", po.Pos(), "underflow is an assertion failure, never an out-of-range read", "Pop does not assert non-emptiness before reading stack[sp-1] / does not decrement sp")
+		st := evalStack(po)
+		parts := strings.SplitN(st.result, " |guards:", 2)
+		okA := st.unknown == "" && st.k == -1 && len(st.stores) == 0 && len(parts) == 2 && parts[0] == "stack[sp0-1]" && nonEmpty(parts[1])
+		c.R.Check(okA, "vm.stack.Pop", "assert non-empty, read sp-1, sp--", po.Pos(), "underflow is an assertion failure, never an out-of-range read", "Pop does not assert non-emptiness before reading stack[sp-1] / does not decrement sp")
 		if em := c.FuncDecl("vm", "stack.Empty"); em != nil {
 			c.R.Check(c.sxN(em, em.Body.List) == "[(ReturnStmt Results:[(BinaryExpr (SelectorExpr $r Sel:sp) Op:== Y:0)])]", "vm.stack.Empty", "sp == 0", em.Pos(), "emptiness is sp == 0", "Empty is not sp == 0")
 		}
